@@ -1130,3 +1130,324 @@ End AsmTie.
    has become empty; the repaired one rebuilds it: header, then erased space up to Length. *)
 Lemma asm_vol_empty_asis pol ffs3 h buf : asm_vol_v false pol ffs3 h buf [] = Ok (h, buf).
 Proof. reflexivity. Qed.
+
+(* ---------- the shape of parsed trees, and its preservation by the operations ---------- *)
+
+Ltac inv_ok H :=
+  repeat match type of H with
+         | bind _ _ = Ok _ =>
+           let x := fresh "x" in let Hx := fresh "Hx" in apply bind_ok in H as (x & Hx & H)
+         | (let '(_, _) := ?p in _) = Ok _ => destruct p
+         | (if ?c then _ else _) = Ok _ => destruct c eqn:?
+         | match ?x with _ => _ end = Ok _ => destruct x eqn:?
+         | Err _ = Ok _ => discriminate H
+         | Panic _ = Ok _ => discriminate H
+         | Fuel = Ok _ => discriminate H
+         end.
+
+Section ParseShape.
+Variable dec : Z -> bytes -> option bytes.
+Variable u2s : bytes -> bytes.
+Variable nvar : bytes -> option bytes.
+
+Lemma sections_loop_shape (rs : Z -> bytes -> Z -> outcome (node * Z)) :
+  (forall pol b i n p, rs pol b i = Ok (n, p) -> shp 2 n = true) ->
+  forall k b pol off i l p, sections_loop rs k b pol off i = Ok (l, p) -> forallb (shp 2) l = true.
+Proof.
+  intros Hrs. induction k as [|k IH]; intros b pol off i l p H; [discriminate|].
+  cbn [sections_loop] in H. destruct (off <? zlen b); [|inversion H; reflexivity].
+  apply bind_ok in H as ([s pol'] & Hs & H).
+  destruct (sec_ext s =? 0); [discriminate|].
+  apply bind_ok in H as ([r pol''] & Hr & H). inversion H; subst.
+  cbn [forallb]. rewrite (Hrs _ _ _ _ _ Hs), (IH _ _ _ _ _ _ Hr). reflexivity.
+Qed.
+
+Lemma files_loop_shape (rf : Z -> bytes -> outcome (option node * Z)) :
+  (forall pol b f p, rf pol b = Ok (Some f, p) -> shp 1 f = true) ->
+  forall k data len pol off l p fs, files_loop rf k data len pol off = Ok (l, p, fs) ->
+    forallb (shp 1) l = true.
+Proof.
+  intros Hrf. induction k as [|k IH]; intros data len pol off l p fs H; [discriminate|].
+  cbn [files_loop] in H. destruct (off + 24 <=? len); [|inversion H; reflexivity].
+  destruct (len <? align8 off + 24); [inversion H; reflexivity|].
+  apply bind_ok in H as ([fo pol'] & Hf & H). destruct fo as [f|]; [|inversion H; reflexivity].
+  destruct (file_ext f =? 0); [discriminate|].
+  apply bind_ok in H as ([[r pol''] fs'] & Hr & H). inversion H; subst.
+  cbn [forallb]. rewrite (Hrf _ _ _ _ Hf), (IH _ _ _ _ _ _ _ Hr). reflexivity.
+Qed.
+
+Lemma section_body_shape rs rv :
+  (forall pol b i n p, rs pol b i = Ok (n, p) -> shp 2 n = true) ->
+  (forall pol d o r n p, rv pol d o r = Ok (n, p) -> shp 2 n = true) ->
+  forall pol buf o n p, section_body dec u2s rs rv pol buf o = Ok (n, p) -> shp 2 n = true.
+Proof.
+  intros Hrs Hrv pol buf o n p H. unfold section_body in H. cbv zeta in H.
+  inv_ok H; inversion H; subst; cbn [shp forallb]; try reflexivity;
+    try (match goal with Hk : sections_loop _ _ _ _ _ _ = Ok _ |- _ =>
+           eapply sections_loop_shape in Hk; eauto end);
+    try (match goal with Hv : rv _ _ _ _ = Ok _ |- _ => rewrite (Hrv _ _ _ _ _ _ Hv); reflexivity end).
+Qed.
+
+Lemma file_body_shape rs :
+  (forall pol b i n p, rs pol b i = Ok (n, p) -> shp 2 n = true) ->
+  forall pol buf f p, file_body nvar rs pol buf = Ok (Some f, p) -> shp 1 f = true.
+Proof.
+  intros Hrs pol buf f p H. unfold file_body in H. cbv zeta in H.
+  inv_ok H; inversion H; subst; cbn [shp forallb]; try reflexivity;
+    try (match goal with Hk : sections_loop _ _ _ _ _ _ = Ok _ |- _ =>
+           eapply sections_loop_shape in Hk; eauto end).
+Qed.
+
+Lemma fv_body_shape rf :
+  (forall pol b f p, rf pol b = Ok (Some f, p) -> shp 1 f = true) ->
+  forall pol data off r n p, fv_body rf pol data off r = Ok (n, p) ->
+    shp 0 n = true /\ shp 2 n = true /\ is_voln n = true.
+Proof.
+  intros Hrf pol data off r n p H. unfold fv_body in H. cbv zeta in H.
+  inv_ok H; inversion H; subst; cbn [shp is_voln forallb]; try (repeat split; reflexivity);
+    try (match goal with Hk : files_loop _ _ _ _ _ _ = Ok _ |- _ =>
+           rewrite (files_loop_shape rf Hrf _ _ _ _ _ _ _ _ Hk); repeat split; reflexivity end).
+Qed.
+
+Lemma parse_shape : forall d,
+  (forall pol b i n p, parse_section dec u2s nvar d pol b i = Ok (n, p) -> shp 2 n = true) /\
+  (forall pol b f p, parse_file dec u2s nvar d pol b = Ok (Some f, p) -> shp 1 f = true) /\
+  (forall pol data off r n p, parse_fv dec u2s nvar d pol data off r = Ok (n, p) ->
+     shp 0 n = true /\ shp 2 n = true /\ is_voln n = true).
+Proof.
+  induction d as [|d (IHs & IHf & IHv)].
+  - repeat split; intros; discriminate.
+  - split; [|split].
+    + intros pol b i n p H. cbn [parse_section] in H.
+      eapply section_body_shape; [exact IHs | | exact H].
+      intros. eapply IHv; eauto.
+    + intros pol b f p H. cbn [parse_file] in H. eapply file_body_shape; [exact IHs | exact H].
+    + intros pol data off r n p H. cbn [parse_fv] in H. eapply fv_body_shape; [exact IHf | exact H].
+Qed.
+
+(* NewBIOSRegion: the elements are paddings and volumes of the parsed shape *)
+Lemma parse_bios_shape d : forall k pol buf abs elems p,
+  parse_bios dec u2s nvar d k pol buf abs = Ok (elems, p) -> forallb (shp 0) elems = true.
+Proof.
+  induction k as [|k IH]; intros pol buf abs elems p H; [discriminate|].
+  cbn [parse_bios] in H.
+  destruct (find_fv_offset buf <? 0).
+  - inversion H; subst. destruct (zlen buf =? 0); reflexivity.
+  - apply bind_ok in H as ([v pol'] & Hv & H).
+    destruct (match v with NVol h _ _ => v_length h | _ => 0 end =? 0); [discriminate|].
+    apply bind_ok in H as ([r pol''] & Hr & H). inversion H; subst.
+    destruct (parse_shape d) as (_ & _ & Pv). destruct (Pv _ _ _ _ _ _ Hv) as (S0 & _ & _).
+    rewrite forallb_app. cbn [forallb]. rewrite S0, (IH _ _ _ _ _ Hr).
+    destruct (0 <? find_fv_offset buf); reflexivity.
+Qed.
+
+End ParseShape.
+
+(* the operations keep the shape *)
+Lemma map_out_forallb {A} (f : A -> outcome A) (P : A -> bool) l l' :
+  (forall x y, In x l -> f x = Ok y -> P x = true -> P y = true) ->
+  map_out f l = Ok l' -> forallb P l = true -> forallb P l' = true.
+Proof.
+  revert l'. induction l as [|x r IH]; intros l' Hf H Hp; cbn [map_out] in H.
+  - inversion H; reflexivity.
+  - apply bind_ok in H as (y & Hy & H). apply bind_ok in H as (ys & Hys & H). inversion H; subst.
+    cbn [forallb] in *. apply andb_true_iff in Hp as [Hx Hr].
+    rewrite (Hf x y (or_introl eq_refl) Hy Hx). cbn [andb].
+    apply IH; auto. intros; eapply Hf; eauto. right; auto.
+Qed.
+
+Lemma forallb_map_in {A} (f : A -> A) (P : A -> bool) l :
+  (forall x, In x l -> P x = true -> P (f x) = true) -> forallb P l = true -> forallb P (map f l) = true.
+Proof.
+  induction l as [|x r IH]; intros Hf Hp; [reflexivity|]. cbn [map forallb] in *.
+  apply andb_true_iff in Hp as [Hx Hr]. rewrite (Hf x (or_introl eq_refl) Hx). cbn [andb].
+  apply IH; auto. intros; apply Hf; auto. right; auto.
+Qed.
+
+Lemma ins_list_forallb (P : node -> bool) it nf l1 f l2 :
+  P nf = true -> forallb P (l1 ++ f :: l2) = true -> forallb P (ins_list it nf l1 f l2) = true.
+Proof.
+  intros Hn H. rewrite forallb_app in H. cbn [forallb] in H.
+  apply andb_true_iff in H as [H1 H]. apply andb_true_iff in H as [Hf H2].
+  destruct it; cbn [ins_list forallb]; rewrite ?forallb_app; cbn [forallb];
+    rewrite ?H1, ?H2, ?Hf, ?Hn; reflexivity.
+Qed.
+
+Lemma ins_visit_shape it s nf : shp 1 nf = true ->
+  forall n c n', ins_visit it s nf n = Ok n' -> shp c n = true -> shp c n' = true.
+Proof.
+  intros Hnf.
+  induction n as [h buf kids IH | h buf kids IH | h buf kids IH | off buf] using node_ind';
+    intros c n' H Hs; cbn [ins_visit] in H.
+  - apply bind_ok in H as (ks & Hk & H). inversion H; subst.
+    destruct c as [|[|[|c]]]; try discriminate Hs. cbn [shp] in *.
+    eapply map_out_forallb; [|exact Hk|exact Hs].
+    rewrite Forall_forall in IH. intros x y Hx Hy Px. eapply IH; eauto.
+  - apply bind_ok in H as (ks & Hk & H). inversion H; subst.
+    destruct c as [|[|[|c]]]; try discriminate Hs. cbn [shp] in *.
+    eapply map_out_forallb; [|exact Hk|exact Hs].
+    rewrite Forall_forall in IH. intros x y Hx Hy Px. eapply IH; eauto.
+  - assert (Hk : forallb (shp 1) kids = true) by (destruct c as [|[|[|c]]]; try discriminate Hs; exact Hs).
+    assert (G : forall fs, forallb (shp 1) fs = true -> shp c (NVol h buf fs) = true)
+      by (intros fs Hfs; destruct c as [|[|[|c]]]; try discriminate Hs; exact Hfs).
+    destruct (first_match_split s kids) as [Hnone | (l1 & f & l2 & -> & Hf & Hl1)].
+    + rewrite (first_match_none _ _ _ Hnone) in H.
+      apply bind_ok in H as (ks & Hks & H). inversion H; subst. apply G.
+      eapply map_out_forallb; [|exact Hks|exact Hk].
+      rewrite Forall_forall in IH. intros x y Hx Hy Px. eapply IH; eauto.
+    + rewrite (first_match_some s l1 f l2 0 Hl1 Hf), ins_at_ok in H. cbn [bind] in H.
+      inversion H; subst. apply G. apply ins_list_forallb; auto.
+  - inversion H; subst. exact Hs.
+Qed.
+
+Lemma ins_fv_shape front s nf : shp 1 nf = true ->
+  forall n c, shp c n = true -> shp c (ins_fv front s nf n) = true.
+Proof.
+  intros Hnf.
+  induction n as [h buf kids IH | h buf kids IH | h buf kids IH | off buf] using node_ind';
+    intros c Hs; cbn [ins_fv].
+  - destruct c as [|[|[|c]]]; try discriminate Hs. cbn [shp] in *.
+    apply forallb_map_in; auto. rewrite Forall_forall in IH. intros; apply IH; auto.
+  - destruct c as [|[|[|c]]]; try discriminate Hs. cbn [shp] in *.
+    apply forallb_map_in; auto. rewrite Forall_forall in IH. intros; apply IH; auto.
+  - assert (Hk : forallb (shp 1) kids = true) by (destruct c as [|[|[|c]]]; try discriminate Hs; exact Hs).
+    assert (G : forall fs, forallb (shp 1) fs = true -> shp c (NVol h buf fs) = true)
+      by (intros fs Hfs; destruct c as [|[|[|c]]]; try discriminate Hs; exact Hfs).
+    destruct (pred_fv s h); apply G.
+    + destruct front; [cbn [forallb]; rewrite Hnf, Hk; reflexivity|].
+      rewrite forallb_app. cbn [forallb]. rewrite Hnf, Hk. reflexivity.
+    + apply forallb_map_in; auto. rewrite Forall_forall in IH. intros; apply IH; auto.
+  - exact Hs.
+Qed.
+
+Lemma pad_node_shape pol size n : pad_node pol size = Ok n -> shp 1 n = true.
+Proof.
+  unfold pad_node. destruct (size <? file_header_min_length); [discriminate|].
+  destruct (negb ((pol =? 255) || (pol =? 0))); [discriminate|].
+  destruct (set_size 0 size false). destruct (checksum_and_assemble _ _ _ _).
+  intros H. inversion H. reflexivity.
+Qed.
+
+Lemma rm_list_forallb s pol pad : forall fs fs1, rm_list s pol pad fs = Ok fs1 ->
+  forallb (shp 1) fs = true -> forallb (shp 1) fs1 = true.
+Proof.
+  induction fs as [|f r IH]; intros fs1 H Hs; cbn [rm_list] in H.
+  - inversion H; reflexivity.
+  - cbn [forallb] in Hs. apply andb_true_iff in Hs as [Hf Hr].
+    destruct (fmatch s f).
+    + destruct (pad || (file_type f =? fv_filetype_peim)).
+      * apply bind_ok in H as (pf & Hp & H). apply bind_ok in H as (r' & Hr' & H). inversion H; subst.
+        cbn [forallb]. rewrite (pad_node_shape _ _ _ Hp), (IH _ Hr' Hr). reflexivity.
+      * apply IH; auto.
+    + apply bind_ok in H as (r' & Hr' & H). inversion H; subst.
+      cbn [forallb]. rewrite Hf, (IH _ Hr' Hr). reflexivity.
+Qed.
+
+Lemma rm_visit_shape s pol pad : forall d n c n',
+  rm_visit d s pol pad n = Ok n' -> shp c n = true -> shp c n' = true.
+Proof.
+  induction d as [|d IH]; intros n c n' H Hs; [discriminate|].
+  destruct n as [h buf kids | h buf kids | h buf kids | off b]; cbn [rm_visit] in H.
+  - apply bind_ok in H as (ks & Hk & H). inversion H; subst.
+    destruct c as [|[|[|c]]]; try discriminate Hs. cbn [shp] in *.
+    eapply map_out_forallb; [|exact Hk|exact Hs]. intros x y _ Hy Px. eapply IH; eauto.
+  - apply bind_ok in H as (ks & Hk & H). inversion H; subst.
+    destruct c as [|[|[|c]]]; try discriminate Hs. cbn [shp] in *.
+    eapply map_out_forallb; [|exact Hk|exact Hs]. intros x y _ Hy Px. eapply IH; eauto.
+  - apply bind_ok in H as (fs & Hf & H). apply bind_ok in H as (fs' & Hk & H). inversion H; subst.
+    rewrite rm_loop_is_rm_list in Hf.
+    assert (Hkids : forallb (shp 1) kids = true) by (destruct c as [|[|[|c]]]; try discriminate Hs; exact Hs).
+    assert (G : forall l, forallb (shp 1) l = true -> shp c (NVol h buf l) = true)
+      by (intros l Hl; destruct c as [|[|[|c]]]; try discriminate Hs; exact Hl).
+    apply G. eapply map_out_forallb; [|exact Hk|eapply rm_list_forallb; eauto].
+    intros x y _ Hy Px. eapply IH; eauto.
+  - inversion H; subst. exact Hs.
+Qed.
+
+Lemma pe_sec_shape pe : forall n, shp 2 n = true -> shp 2 (pe_sec pe n) = true.
+Proof.
+  induction n as [h buf kids IH | h buf kids IH | h buf kids IH | off buf] using node_ind';
+    intros Hs; cbn [pe_sec]; auto.
+  destruct (s_type h =? section_type_pe32).
+  - destruct (gen_sec_header h pe). reflexivity.
+  - cbn [shp] in *. apply forallb_map_in; auto. rewrite Forall_forall in IH. intros; apply IH; auto.
+Qed.
+
+Lemma pe_visit_shape s pe : forall n c, shp c n = true -> shp c (pe_visit s pe n) = true.
+Proof.
+  induction n as [h buf kids IH | h buf kids IH | h buf kids IH | off buf] using node_ind';
+    intros c Hs; cbn [pe_visit].
+  - destruct c as [|[|[|c]]]; try discriminate Hs. cbn [shp] in *.
+    apply forallb_map_in; auto. rewrite Forall_forall in IH. intros; apply IH; auto.
+  - destruct c as [|[|[|c]]]; try discriminate Hs. cbn [shp] in Hs.
+    destruct (fmatch s (NFile h buf kids)); cbn [shp].
+    + apply forallb_map_in; auto. intros; apply pe_sec_shape; auto.
+    + apply forallb_map_in; auto. rewrite Forall_forall in IH. intros; apply IH; auto.
+  - assert (Hk : forallb (shp 1) kids = true) by (destruct c as [|[|[|c]]]; try discriminate Hs; exact Hs).
+    assert (G : forall fs, forallb (shp 1) fs = true -> shp c (NVol h buf fs) = true)
+      by (intros fs Hfs; destruct c as [|[|[|c]]]; try discriminate Hs; exact Hfs).
+    apply G. apply forallb_map_in; auto. rewrite Forall_forall in IH. intros; apply IH; auto.
+  - exact Hs.
+Qed.
+
+Definition cop_ok (c : cop) : Prop :=
+  match c with CInsert _ _ nf => shp 1 nf = true | _ => True end.
+
+Lemma run_op_shape d pol c elems elems' : cop_ok c ->
+  run_op d pol c elems = Ok elems' -> forallb (shp 0) elems = true -> forallb (shp 0) elems' = true.
+Proof.
+  intros Hc H Hs. destruct c as [it s nf | pad s | s pe |]; cbn [run_op cop_ok] in *.
+  - unfold insert_run in H. destruct (find_elems s elems) as [|m [|m2 r]]; try discriminate.
+    destruct m; try discriminate.
+    + eapply map_out_forallb; [|exact H|exact Hs]. intros x y _ Hy Px. eapply ins_visit_shape; eauto.
+    + destruct it; try discriminate; inversion H; subst;
+        (apply forallb_map_in; auto; intros; apply ins_fv_shape; auto).
+  - unfold remove_run in H. eapply map_out_forallb; [|exact H|exact Hs].
+    intros x y _ Hy Px. eapply rm_visit_shape; eauto.
+  - unfold replace_pe32_run in H. destruct (negb (prefixb [77; 90] pe)); [discriminate|].
+    destruct (find_elems s elems) as [|m [|m2 r]]; try discriminate. inversion H; subst.
+    apply forallb_map_in; auto. intros; apply pe_visit_shape; auto.
+  - inversion H; subst. exact Hs.
+Qed.
+
+Lemma run_ops_shape d pol : forall cs elems elems', Forall cop_ok cs ->
+  run_ops d pol cs elems = Ok elems' -> forallb (shp 0) elems = true -> forallb (shp 0) elems' = true.
+Proof.
+  induction cs as [|c r IH]; intros elems elems' Hc H Hs; cbn [run_ops] in H.
+  - inversion H; subst. exact Hs.
+  - inversion Hc; subst. apply bind_ok in H as (e1 & He & H).
+    eapply IH; eauto. eapply run_op_shape; eauto.
+Qed.
+
+Section CliShape.
+Variable dec : Z -> bytes -> option bytes.
+Variable u2s : bytes -> bytes.
+Variable nvar : bytes -> option bytes.
+
+Lemma parse_cli_ok d : forall ops pol cops pol', parse_cli dec u2s nvar d pol ops = Ok (cops, pol') ->
+  Forall cop_ok cops.
+Proof.
+  induction ops as [|o r IH]; intros pol cops pol' H; cbn [parse_cli] in H.
+  - inversion H; constructor.
+  - apply bind_ok in H as ([c pol1] & Hc & H). apply bind_ok in H as ([cs pol2] & Hr & H).
+    inversion H; subst. constructor; [|eapply IH; eauto].
+    destruct o as [it a fb | pad a | a pe |]; cbn [parse_op] in Hc.
+    + apply bind_ok in Hc as ([fo p1] & Hf & Hc). destruct fo as [nf|]; [|discriminate].
+      inversion Hc; subst. cbn [cop_ok].
+      destruct (parse_shape dec u2s nvar d) as (_ & Pf & _). eapply Pf; eauto.
+    + inversion Hc; exact I.
+    + inversion Hc; exact I.
+    + inversion Hc; exact I.
+Qed.
+
+(* every tree the command line can reach has the parsed shape *)
+Lemma edit_tree_shape d ops img cops pol0 elems pol elems' :
+  parse_cli dec u2s nvar d 240 ops = Ok (cops, pol0) ->
+  parse_bios dec u2s nvar d (Z.to_nat (zlen img) + 1) pol0 img 0 = Ok (elems, pol) ->
+  run_ops d pol cops elems = Ok elems' -> forallb (shp 0) elems' = true.
+Proof.
+  intros H1 H2 H3. eapply run_ops_shape; [eapply parse_cli_ok; eauto | exact H3 |].
+  eapply parse_bios_shape; eauto.
+Qed.
+
+End CliShape.
